@@ -51,5 +51,37 @@ def main():
         print(json.dumps({"tried": n, "violation": None, "inputs": None, "distinct": len(distinct)}))
 
 
+def _pworker(args):
+    name, inputs = args
+    mod = importlib.import_module(name)
+    return run_one(mod, inputs)
+
+
+def psearch():
+    """drive.py <monitor> psearch <max> <seed> <nproc>: like search, candidates checked by a process pool (for monitors
+    whose single check is expensive: generator + compiler runs); the first violation in candidate order is reported"""
+    import multiprocessing
+    name = sys.argv[1]
+    mx, seed, nproc = int(sys.argv[3]), int(sys.argv[4]), int(sys.argv[5])
+    around = json.loads(sys.argv[6]) if len(sys.argv) > 6 else None
+    mod = importlib.import_module(name)
+    cands = []
+    for inputs in mod.candidates(seed, around):
+        cands.append(inputs)
+        if len(cands) >= mx:
+            break
+    with multiprocessing.Pool(nproc) as pool:
+        res = pool.map(_pworker, [(name, c) for c in cands], chunksize=4)
+    distinct = len(set(json.dumps(c, sort_keys=True) for c in cands))
+    for i, v in enumerate(res):
+        if v:
+            print(json.dumps({"tried": len(cands), "violation": v, "inputs": cands[i], "distinct": distinct}))
+            return
+    print(json.dumps({"tried": len(cands), "violation": None, "inputs": None, "distinct": distinct}))
+
+
 if __name__ == "__main__":
+    if len(sys.argv) > 2 and sys.argv[2] == "psearch":
+        psearch()
+        sys.exit(0)
     main()
